@@ -101,6 +101,38 @@ def _dist(kind, pairs):
     return DictDistribution({e: float(p) for e, p in nz})
 
 
+FALSY_POOL = [None, "", (), 0]       # hashable, distinct, every one of them falsy in Python (unsortable together)
+
+
+def _labels(kind, n, prefix, rng):
+    """build.make_labels plus the kind "falsy": labels that are all falsy in Python."""
+    if kind == "falsy":
+        if n > len(FALSY_POOL):
+            return make_labels("mixed", n, prefix, rng)
+        labs = list(FALSY_POOL[:n]) if rng is None else rng.sample(FALSY_POOL, n)
+        return labs
+    return make_labels(kind, n, prefix, rng)
+
+
+def _unsorted_order(labs, rng):
+    """A permutation of labs that differs from sorted(labs) whenever that is possible."""
+    if len(labs) < 2:
+        return labs
+    try:
+        srt = sorted(labs)
+    except TypeError:
+        srt = None
+    out = list(labs)
+    for _ in range(20):
+        if rng is not None:
+            rng.shuffle(out)
+        else:
+            out = out[1:] + out[:1]
+        if srt is None or out != srt:
+            break
+    return out
+
+
 @dataclass
 class BuiltPOMDP:
     pomdp: object
@@ -127,7 +159,7 @@ def listed_states(m, explicit_list):
 
 
 def build_pomdp(m, *, labels="int", alabels="int", olabels="int", explicit_list=False, dist="dict",
-                odist="dict", outside=None, rng=None, statedep_actions=False, **_ignored):
+                odist="dict", outside=None, rng=None, statedep_actions=False, declare_lists=False, **_ignored):
     """labels/alabels/olabels in build.LABEL_KINDS; dist/odist in {"dict","dict_zeros","det","uniform"}.
 
     With "dict_zeros" zero-probability entries are listed for members of the state / observation
@@ -135,9 +167,9 @@ def build_pomdp(m, *, labels="int", alabels="int", olabels="int", explicit_list=
     outside="obs-zero" a zero-probability observation that is in no list (DESIGN section 9 item 12).
     """
     N, K, NO = m["N"], m["K"], m["NO"]
-    sl = make_labels(labels, N, "s", rng)
-    al = make_labels(alabels, K, "a", rng)
-    ol = make_labels(olabels, NO, "o", rng)
+    sl = _labels(labels, N, "s", rng)
+    al = _labels(alabels, K, "a", rng)
+    ol = _labels(olabels, NO, "o", rng)
     sidx = {l: i for i, l in enumerate(sl)}
     aidx = {l: i for i, l in enumerate(al)}
     PD, ID, OD = m["PD"], m["ID"], m["OD"]
@@ -204,8 +236,15 @@ def build_pomdp(m, *, labels="int", alabels="int", olabels="int", explicit_list=
 
     nsd_c = memo(lambda _, s, a: nsd(s, a))
     obd_c = memo(lambda _, a, ns: obd(a, ns))
+    if declare_lists:
+        # the model author declares observation_list / action_list as class attributes (plain lists, the way
+        # msdm.domains.loadunload.LoadUnload does), in an order that is NOT the sorted one
+        _P.observation_list = _unsorted_order(list(ol), rng)
+        _P.action_list = _unsorted_order(list(al), rng)
     p = _P()
-    if explicit_list:
+    if explicit_list and declare_lists:
+        p._state_list = tuple(sl)
+    elif explicit_list:
         p._state_list = tuple(sl)
         p._action_list = tuple(al)
     rep = dict(labels=labels, alabels=alabels, olabels=olabels, explicit_list=explicit_list, dist=dist,
